@@ -389,7 +389,7 @@ def _run_public(cfg, rec):
                 fname = tmp.name
                 if reg == "data_io":
                     with tps.monkeypatch_plugin_registry_data_io(test_data_io={}, create_new_registry=True):
-                        dr.register_data_io("vfmt")(first)
+                        dr.register_data_io(["vfmt", "vf3"])(first)  # several format names per class
                         dr.register_data_io(["vfmt", "vf2"])(second)
                         if repoint:
                             dr.set_data_plugin("vfmt", f"{second.__module__}.{second.__name__}_vfmt")
@@ -397,7 +397,8 @@ def _run_public(cfg, rec):
                         out["loaded"] = (dr.load_dataset(fname, format_name="vfmt") if explicit else dr.load_dataset(fname)).attrs["by"]
                         out["full_ok"] = (type(dr.get_data_io(f"{first.__module__}.{first.__name__}_vfmt")) is first
                                           and type(dr.get_data_io(f"{second.__module__}.{second.__name__}_vfmt")) is second
-                                          and type(dr.get_data_io("vf2")) is second)
+                                          and type(dr.get_data_io("vf2")) is second
+                                          and type(dr.get_data_io("vf3")) is first)  # a sibling name of the re-pointed one stays put
                         try:
                             dr.get_data_io("nope")
                             out["unknown"] = None
@@ -406,7 +407,7 @@ def _run_public(cfg, rec):
                         out["known"] = dr.known_data_formats()
                 else:
                     with tps.monkeypatch_plugin_registry_project_io(test_project_io={}, create_new_registry=True):
-                        pr.register_project_io("vfmt")(first)
+                        pr.register_project_io(["vfmt", "vf3"])(first)  # several format names per class
                         pr.register_project_io(["vfmt", "vf2"])(second)
                         if repoint:
                             pr.set_project_plugin("vfmt", f"{second.__module__}.{second.__name__}_vfmt")
@@ -414,7 +415,8 @@ def _run_public(cfg, rec):
                         out["loaded"] = (pr.load_parameters(fname, format_name="vfmt") if explicit else pr.load_parameters(fname)).by
                         out["full_ok"] = (type(pr.get_project_io(f"{first.__module__}.{first.__name__}_vfmt")) is first
                                           and type(pr.get_project_io(f"{second.__module__}.{second.__name__}_vfmt")) is second
-                                          and type(pr.get_project_io("vf2")) is second)
+                                          and type(pr.get_project_io("vf2")) is second
+                                          and type(pr.get_project_io("vf3")) is first)  # a sibling name of the re-pointed one stays put
                         try:
                             pr.get_project_io("nope")
                             out["unknown"] = None
